@@ -28,6 +28,10 @@ def run(tier):
     d0 = vlib.run_tlc("Paging", "MC_Paging.cfg", timeout=1800, want_vecs=False)
     if not d0.ok:
         raise Broken("design model MC_Paging fails: %s\n%s" % (d0.violated or d0.error, d0.trace_text[:2000]))
+    # unbounded: Apalache proves the inductive invariant of the counting skeleton (PagingInt.tla, which Paging.tla refines) for
+    # EVERY page size and feature count: Init => IndInv, IndInv /\ Next => IndInv', IndInv => Complete
+    apalache = [vlib.run_apalache("PagingInt", "Init", "IndInv", 0), vlib.run_apalache("PagingInt", "IndInit", "IndInv", 1),
+                vlib.run_apalache("PagingInt", "IndInit", "Complete", 0)]
     drv = vlib.build_harness()
     maxp = 5 if tier == "quick" else 16
     gts = ["polygon", "multipolygon", "point", "linestring", "multipoint", "multilinestring", "geometrycollection"]
@@ -82,7 +86,9 @@ def run(tier):
         "samples": [[json.loads(x) for x in results[min(10, len(results) - 1)][1]]],
         "cases": len(results), "page_sizes": "1..%d" % maxp, "counts": "0..3P+1 per page size",
         "geometry_types": gts if tier == "thorough" else "cycled over " + ",".join(gts),
-        "design_model": "MC_Paging: P 1..4 x count 0..13 x empty-geometry subsets", "exhaustive": True,
+        "design_model": "MC_Paging: P 1..4 x count 0..13 x empty-geometry subsets (refines PagingInt: property RefinesInt)", "exhaustive": True,
+        "apalache": {"module": "PagingInt.tla", "obligations": ["Init => IndInv", "IndInv /\\ Next => IndInv'", "IndInv => Complete"],
+                     "bounds": "none: every page size >= 1 and every feature count", "wall_s": apalache},
         "rule": "every (page size, count) with count in 0..3P+1: a random source table (1-3 attribute columns with NULLs, geometry column at a random position, "
                 "random empty geometries, SRS 28992 or 4326) is read by the real SourceGeopackage and written by a real TargetGeopackage; committed rows observed "
                 "after every send through a second connection; final rows/order/values/rtree/extent/schema projected and judged by PagingTrace.tla",
